@@ -21,7 +21,8 @@ RULE = ('generated data models (gens/data.py): both flavours; any subset of the 
         '== model carried through the formats; (2) library re-read == independent read; (3) write-again stability chain; '
         '(4) independent Fortran-style writer (E / D / lower-case exponents, requested section order) -> library read == '
         'independent read, order preserved on rewrite; shipped: the data files under tests/data and tests/grid. '
-        'Non-trivial = at least 3 optional sections and one non-empty list section; distinct = model JSON.')
+        'Non-trivial = at least 3 optional sections and one non-empty list section; distinct = model JSON.'
+        ' Since the seeded rounds: enthalpy tables of zeros; leg 5 = on half of the TOUGH2 models read from the independently written (permuted-order) file the simulator is set, the model written and re-read, and compared with the model as it was.')
 ASSUMPTIONS = ['names are generated at full field width (5 characters); rock names are unique, block names are unique after the '
                '(A3,I2) repair; history/short items refer to existing blocks, connections and generators',
                'reals in D-exponent or dropped-letter style are read with read_function=fortran_read_function, as the user guide prescribes',
@@ -103,7 +104,21 @@ def run_gen(case, R):
     namemap = canon_name
     # ------------------------------------------------------------------ leg 1: build, write, independent read
     with R.lib('build'):
-        x = data.build(m)
+        if case.get('history', len(m['title']) % 3 == 0) and (len(m['blocks']) > 1 or len(m.get('rocks', [])) > 1):
+            # the same model reached through an editing history: blocks and connections added in the reverse order and
+            # then put in order with reorder(); the first rock type renamed away and back.  What the object holds (lists,
+            # names, values) is what m says; only the order in which things were inserted into its lookups differs.
+            R.label('model:built-through-an-editing-history')
+            m2 = dict(m); m2['blocks'] = m['blocks'][::-1]; m2['connections'] = m['connections'][::-1]
+            x = data.build(m2)
+            cn = [(c['block1'], c['block2']) for c in m['connections']]
+            x.grid.reorder([b['name'] for b in m['blocks']], cn if cn else None)
+            if len(x.grid.rocktypelist) > 1:
+                r0 = x.grid.rocktypelist[0].name
+                tmpname = next(n for n in ('zzzzz', 'zzzzy', 'zzzzx') if n not in x.grid.rocktype)
+                x.grid.rename_rocktype(r0, tmpname); x.grid.rename_rocktype(tmpname, r0)
+        else:
+            x = data.build(m)
     with R.lib('write'):
         x.write(f1, meshfilename=(mesh1 or ''), extra_precision=xp_arg, echo_extra_precision=echo)
     written_xp = [k for k in xp_secs if k in secs]
